@@ -18,6 +18,7 @@ import threading
 import time
 
 import common
+import pubscan
 from common import Check, sx, unsx, names, run_model, hist
 from vinegar.http import server as S
 
@@ -275,7 +276,7 @@ def _instrument():
     if _installed:
         return
     _installed = True
-    cls = S._DelegatingRequestHandler
+    cls = pubscan.handler_class(_server)          # found through the running server object, not by its private name
     orig_sro = cls.send_response_only
     orig_finish = cls.finish
 
@@ -298,10 +299,10 @@ def _instrument():
 def server_port():
     global _server, _port
     if _server is None:
-        _instrument()
         _server = S.HttpServer([ScriptHandler(i) for i in range(MAXH)], "::1", 0)
         _server.start()
-        _port = _server._server.server_address[1]
+        _instrument()
+        _port = pubscan.base_server(_server).server_address[1]
         # a SECOND live server object with another handler list (none): per-server state must not live in a class
         global _second
         _second = S.HttpServer([], "::1", 0)
@@ -309,7 +310,7 @@ def server_port():
         atexit.register(_second.stop)
         # socketserver prints a traceback when a worker dies because the client went away while http.server itself was
         # writing; that is outside vinegar's code: keep the output clean
-        _server._server.handle_error = lambda request, client_address: None
+        pubscan.base_server(_server).handle_error = lambda request, client_address: None
         atexit.register(_server.stop)
     return _port
 
@@ -457,6 +458,7 @@ def bigbody():
 
 class C03(Check):
     ident = "C03"
+    impl_canon_from_driver = True      # the driver canonicalises both observations (server-generated error pages: status only)
     technique = ("Coq proof (parser/renderer round trip + emission invariant of _delegate_request over the "
                  "http.server buffer model) + differential correspondence over real TCP sockets")
     rule = ("case = (method, request path, handler list with scripted prepare/can/handle behaviour, handler result "
@@ -489,7 +491,7 @@ class C03(Check):
         server_port()
         # the second server object (no handlers) answers 404 and leaves the first one alone
         try:
-            sk = socket.create_connection(("::1", _second._server.server_address[1]), timeout=deadline)
+            sk = socket.create_connection(("::1", pubscan.base_server(_second).server_address[1]), timeout=deadline)
             sk.sendall(b"GET /c/other-server HTTP/1.0\r\n\r\n")
             other = b""
             while True:
@@ -748,7 +750,7 @@ class C03(Check):
 
     # -- real code
     def impl(self, c):
-        lg = logging.getLogger("vinegar.http.server")
+        lg = pubscan.module_loggers(S)[0]
         old = lg.level
         if c.get("loglevel"):                    # the logging level is configuration: the response must not depend on it
             lg.setLevel(c["loglevel"])
@@ -864,7 +866,7 @@ class C03(Check):
             if len(r) >= 5 and r[4] in (0, 1) and getattr(self, "_report", None) is not None:
                 key = "cases_within_theorem_hypotheses" if r[4] == 1 else "cases_outside_theorem_hypotheses"
                 self._report["extra"][key] = self._report["extra"].get(key, 0) + 1
-            res.append((c, o, r[0], names(r[2])))
+            res.append((c, o, r[0], names(r[2]), r[3] if len(r) > 3 else None))
         return res
 
     def probe(self):
@@ -1133,10 +1135,10 @@ class C03(Check):
                     continue
                 cases += bt
                 obs += rs
-            for (c, o, m, fi) in self.judge(cases, obs):
+            for (c, o, m, fi, io_c) in self.judge(cases, obs):
                 report["evaluations"] += 1
                 report["extra"]["concurrent_requests"] += 1
-                if self.canon(o) != m:
+                if (io_c if io_c is not None else self.canon(o)) != m:
                     report["disagreements"] += 1
                 if fi:
                     report["impl_failures"] += 1
